@@ -132,6 +132,8 @@ from .parsex import (
     parse,
     parse_stmt,
     parse_stmts,
+    parse_Expression,
+    parse_Interactive,
     parse_ExceptHandler,
     parse__ExceptHandlers,
     parse_match_case,
@@ -4957,6 +4959,40 @@ def code_as_stmts(
                     name='zero or more stmts')
 
 
+def code_as_Expression(
+    code: Code,
+    options: Mapping[str, Any] = {},
+    parse_params: Mapping[str, Any] = {},
+    *,
+    strip: bool = False,
+    coerce: bool = False,
+) -> fst.FST:
+    """Convert `code` to an `Expression` if possible.
+
+    **Note:** `coerce` does nothing since nothing is coerced to an `Expression`, only an `Expression` or source is
+    accepted. `strip` does nothing since the return is an `Expression` which always includes the whole source.
+    """
+
+    return _code_as(code, options, parse_params, parse_Expression, Expression, strip)
+
+
+def code_as_Interactive(
+    code: Code,
+    options: Mapping[str, Any] = {},
+    parse_params: Mapping[str, Any] = {},
+    *,
+    strip: bool = False,
+    coerce: bool = False,
+) -> fst.FST:
+    """Convert `code` to an `Interactive` if possible.
+
+    **Note:** `coerce` does nothing since nothing is coerced to an `Interactive`, only an `Interactive` or source is
+    accepted. `strip` does nothing since the return is an `Interactive` which always includes the whole source.
+    """
+
+    return _code_as(code, options, parse_params, parse_Interactive, Interactive, strip)
+
+
 def code_as_ExceptHandler(
     code: Code,
     options: Mapping[str, Any] = {},
@@ -6026,8 +6062,8 @@ _CODE_AS_MODE_FUNCS = {
     'all':                    code_as_all,
     'strict':                 code_as_stmts,
     'exec':                   code_as_stmts,
-    'eval':                   None,  # why do we even support these at all?
-    'single':                 None,
+    'eval':                   code_as_Expression,  # only an Expression itself, nothing coerces to these
+    'single':                 code_as_Interactive,
     'stmt':                   code_as_stmt,
     'stmts':                  code_as_stmts,
     'ExceptHandler':          code_as_ExceptHandler,
@@ -6068,8 +6104,8 @@ _CODE_AS_MODE_FUNCS = {
     'type_param':             code_as_type_param,
     '_type_params':           code_as__type_params,
     mod:                      code_as_stmts,
-    Expression:               None,
-    Interactive:              None,
+    Expression:               code_as_Expression,
+    Interactive:              code_as_Interactive,
     stmt:                     code_as_stmt,
     ExceptHandler:            code_as_ExceptHandler,
     match_case:               code_as_match_case,
